@@ -128,7 +128,16 @@ func runC04(h *Harness) {
 			h.R.Sample = map[string]any{"skipped": true}
 			return
 		}
-		der[hdr+b/8] ^= 1 << uint(7-b%8)
+		pos := hdr + b/8
+		lo, hi := pos-8, pos+8
+		if lo < 0 {
+			lo = 0
+		}
+		if hi > len(der) {
+			hi = len(der)
+		}
+		sc["flip_context"] = fmt.Sprintf("offset %d of %d, original byte %02x, bytes %x|%02x|%x (tbs ends at %d)", pos, len(der), der[pos], der[lo:pos], der[pos], der[pos+1:hi], hdr+len(doc.TBS))
+		der[pos] ^= 1 << uint(7-b%8)
 		doc.DER, doc.Bytes = der, der
 		doc.Name = fmt.Sprintf("%s+bit%d", orig.Name, b)
 		region := "tbs"
